@@ -24,7 +24,7 @@ def lean(repo):
     if not m:
         raise ValueError("auth_file.c: valid_salts not found")
     alphabet = "".join(re.findall(r"\"([^\"]*)\"", m.group(1)))
-    if not re.search(r"valid_salts\[random_byte % \(sizeof valid_salts - 1\)\]", txt):
+    if not re.search(r"valid_salts\s*\[\s*random_byte\s*%\s*\(\s*sizeof\s*\(?\s*valid_salts\s*\)?\s*-\s*1\s*\)\s*\]", txt):
         raise ValueError("auth_file.c: fill_salt no longer indexes valid_salts by random_byte % (sizeof - 1)")
     m = re.search(r"char salt\[(\d+)\];", txt)
     if not m:
